@@ -8,7 +8,7 @@
 //	customquery  Query custom/<module>/<route> at historical and latest heights
 //	simulate     Query app/simulate of valid state-changing transactions
 //	simupgrade   Query app/simulate of MsgUpgrade transactions of the gov/upgrade owner (FEATURE upgrades that
-//	             re-schedule a named feature), correctly signed or carrying the owner's public key with a junk
+//	             re-schedule a named feature, and VERSION upgrades that would move the codec-upgrade heights), correctly signed or carrying the owner's public key with a junk
 //	             signature (the ante handler skips signature verification in simulate mode)
 //	none         nothing (the twins must agree: sanity of the harness itself)
 //
@@ -309,6 +309,11 @@ func (a *actor) act(point string, i int) {
 			f := feats[r.Intn(len(feats))]
 			up := govTypes.Upgrade{Height: n.Height + 1, Version: "FEATURE", Features: []string{fmt.Sprintf("%s:%d", f, 1000000+r.Intn(10))}}
 			desc := "feature:" + f
+			if r.Chance(1, 3) {
+				// a VERSION upgrade: moves codec.UpgradeHeight / OldUpgradeHeight (the codec switch) on a node that believes it
+				up = govTypes.Upgrade{Height: n.Height + int64(1+r.Intn(50)), Version: fmt.Sprintf("0.%d.0", 13+r.Intn(5)), Features: []string{fmt.Sprintf("%s:%d", f, n.Height+int64(1+r.Intn(5)))}}
+				desc = fmt.Sprintf("version:%s@%d", up.Version, up.Height)
+			}
 			var bz []byte
 			if r.Bool() {
 				bz = chain.SignTx(chainID, owner, chain.MsgUpgrade(owner.Addr, up), chain.DefaultFee, a.nextEnt(), "")
